@@ -67,6 +67,9 @@ N == [
   t_latin    |-> <<99, 97, 102, 233, 47, 109, 101, 110, 252, 46, 116, 120, 116>>,   \* "caf(E9)/men(FC).txt": 8-bit OSTA form in UDF
   t_latin2   |-> <<195, 169>>,   \* U+00C3 U+00A9: Latin-1 bytes that also are valid UTF-8
   t_cjk      |-> <<20013, 47, 25991>>,   \* U+4E2D "/" U+6587: 16-bit OSTA form
+  t_upup     |-> <<46, 46, 47, 46, 46>>,   \* "../..": the last component has no identifier of its own
+  t_dot      |-> <<100, 49, 47, 46>>,   \* "d1/."
+  t_root     |-> <<47>>,   \* "/"
   bootcat    |-> <<98, 111, 111, 116, 46, 99, 97, 116>>,   \* "boot.cat"
   star_txt   |-> <<46, 116, 120, 116>> ]   \* ".txt" (pattern "*.txt")
 
@@ -104,7 +107,7 @@ Singles ==
        {{F(n, "A")} : n \in FileNames}
   \cup {{F(N.f1, "E")}}
   \cup {{D(n)} : n \in DirNames}
-  \cup {{L(N.f18, t)} : t \in {N.t_abs, N.t_dangling, N.t_up, N.t_latin, N.t_latin2, N.t_cjk}}
+  \cup {{L(N.f18, t)} : t \in {N.t_abs, N.t_dangling, N.t_up, N.t_latin, N.t_latin2, N.t_cjk, N.t_upup, N.t_dot, N.t_root}}
   \cup {{L(N.f12, N.t_abs)}}
 PairsF ==
        {Distinctly(s) : s \in FilePairs}
